@@ -136,8 +136,7 @@ def run(rep, model, tier, seed, broken=()):
                             "doccomment entries; non-trivial = >= 2 entries and >= 1 flag off; distinct by bytes+flags")
     try:
         cases = []
-        for f in sorted((core.CORPUS / "C08").glob("*.json")) if (core.CORPUS / "C08").exists() else []:
-            pass
+        cases += [c for c in pipe.corpus_cases("C08") if c["_name"].startswith("s_")]
         for i in range(n):
             mod = gen.gen_module(rng, budget=rng.choice([6, 12, 24, 40]),
                                  weights=dict(klass=3, defn=3, test=2, option=2, add_test=1.5))
